@@ -524,6 +524,12 @@ func checkC13(w *World, r *Report) {
 	siblingDomainRule(w, r, "C13.sibling-domain")
 	seqErrorUsedRule(w, r, e, "C13.seq-errors")
 	okFlagUsedRule(w, r, e, "C13.ok-flag")
+	domainTableRule(w, r, "C13.domain-table")
+	// the type predicates: string? and keyword? split the Go strings between them by one test
+	r.include("C13.predicate-", "C06.", "keyword? and string? decide by the same prefix test on the same marker constant the constructor puts in front: every string is exactly one of the two", checkC06, func(rule string) bool {
+		return rule == "C06.marker"
+	})
+	droppedErrorRule(w, r, "C13.errors-surface")
 	allArgumentsRule(w, r, e, "C13.all-arguments")
 	keyContentRule(w, r, "C13.key-content")
 	loopErrorRule(w, r, "C13.loop-errors", func(fn *ssa.Function) bool {
@@ -1283,6 +1289,7 @@ func checkC17(w *World, r *Report) {
 	moduleAsGivenRule(w, r, e, "C17.module")
 	fabricatedPositionRule(w, r, "C17.no-made-up-position")
 	carrierNotBoundRule(w, r, e, "C17.carrier-not-bound")
+	readStringCursorRule(w, r, "C17.read-string-cursor")
 	if rf := w.Fn("reader", "read_form"); rf != nil {
 		nm, okAll := 0, true
 		for _, fn := range w.pkgFuncs("reader") {
@@ -1978,6 +1985,7 @@ func checkC20(w *World, r *Report) {
 		return
 	}
 	exactArgsRule(w, r, e, "C20.exact-args", callFn, []*ssa.Function{args, argsCtx})
+	applyVerbatimRule(w, r, e, "C20.apply-verbatim")
 	r.rule("C20.chain-kept", "wherever the library puts an error into a new message it does so with %w: the error a bound function returned, or the one made from its panic, stays reachable with errors.Is / errors.As through every caller of bound functions (evaluator, apply, the reader's constructors)")
 	ruleWrapAs(w, r, "C20.chain-kept")
 	adapterFor := map[int64]*ssa.Function{0: nilnil, 1: nilerr, 2: reserr}
@@ -2568,6 +2576,19 @@ func checkC20(w *World, r *Report) {
 				}
 			}
 		}
+		// ... or the bounds less one are handed to a function of the package that does the comparison
+		for _, in := range b.Instrs {
+			if c, ok := in.(*ssa.Call); ok && c.Call.StaticCallee() != nil && c.Call.StaticCallee().Pkg == argsCtx.Pkg && len(c.Call.StaticCallee().Blocks) > 0 {
+				for _, a := range c.Call.Args {
+					if !isIntType(a.Type()) {
+						continue
+					}
+					if t, off, ok := e.linOf(a); ok && t.Kind == 2 && off == -1 {
+						minus++
+					}
+				}
+			}
+		}
 	}
 	if minus >= 2 {
 		r.check(incMin && incMax, "C20.units", callFn, "explicit bounds of a context-taking function", callFn.Pos(), "both incremented before the adapters capture them (the context builder compares against bounds-1)", fmt.Sprintf("the context builder subtracts the context from both bounds, but explicit bounds are incremented: min=%v max=%v", incMin, incMax))
@@ -2588,7 +2609,7 @@ func checkC20(w *World, r *Report) {
 		if mk != nil {
 			lenArgs := Term{Kind: 1, K: e.keyOf(fn.Params[len(fn.Params)-1])}
 			up, lo := false, false
-			for _, f := range e.holding(mk.Block()).list() {
+			for _, f := range e.holdingAt(mk).list() {
 				// compared with a bound parameter, not with a constant
 				if f.Kind == "le" && f.A.String() == lenArgs.String() && f.B.Kind == 2 {
 					up = true
@@ -2611,7 +2632,7 @@ func checkC20(w *World, r *Report) {
 				continue // (a nil slice is an argument vector too: the function is invoked without arguments)
 			}
 			up, lo := false, false
-			for _, f := range e.holding(b).list() {
+			for _, f := range e.holdingAt(ret).list() {
 				if f.Kind == "le" && f.A.String() == lenArgs.String() && f.B.Kind == 2 {
 					up = true
 				}
@@ -3160,7 +3181,10 @@ func checkC20(w *World, r *Report) {
 					nb++
 					okName, nOverride := true, 0
 					why := ""
-					for _, lf := range e.producers(nameVal, map[ssa.Value]bool{}, 0) {
+					e.followParams = true
+					nameProducers := e.producers(nameVal, map[ssa.Value]bool{}, 0)
+					e.followParams = false
+					for _, lf := range nameProducers {
 						switch {
 						case fromOverride(lf):
 							nOverride++
@@ -3224,7 +3248,10 @@ func checkC20(w *World, r *Report) {
 						continue
 					}
 					nown++
-					for _, lf := range e.producers(stripConv(st.Val), map[ssa.Value]bool{}, 0) {
+					e.followParams = true
+					fnProducers := e.producers(stripConv(st.Val), map[ssa.Value]bool{}, 0)
+					e.followParams = false
+					for _, lf := range fnProducers {
 						ok, why := madeHere(lf, 0)
 						r.check(ok, "C20.own-adapter", f, "function value bound by the registration", st.Pos(), "an adapter closure made in this registration", "the registration can bind "+why+" instead of the adapter it has just made for the function it was given: the lisp name then invokes another Go function (or the same code with another closure's captured state)")
 					}
@@ -4926,6 +4953,21 @@ func rangeErrorRule(w *World, r *Report, e *Engine, rule string) {
 					outEdge = 0
 				}
 				if outEdge < 0 {
+					continue
+				}
+				// the test that ends a counted loop is no verdict on a position asked for: its index is the
+				// loop's own counter, and leaving the loop is the ordinary way on
+				isCounter := false
+				for _, side := range []ssa.Value{bo.X, bo.Y} {
+					if phi, ok := side.(*ssa.Phi); ok && phi.Block() == d {
+						for _, l := range naturalLoops(fn) {
+							if l.header == d {
+								isCounter = true
+							}
+						}
+					}
+				}
+				if isCounter {
 					continue
 				}
 				lenTerm := ty
